@@ -27,6 +27,9 @@ type Profile struct {
 	PDocNoise                                 float64
 	PLongValues                               float64 // clauses with more than 100 values, on the operators whose operands are pre-parsed
 	PSegBucket                                float64 // extra weight on weighted segment rules with a bucket-by attribute, some of them invalid references
+	PLongHash                                 float64 // flag key / salt / context key sized around the 100-byte hash buffer and its growth steps
+	PLongKeys                                 float64 // context keys of 101..260 bytes (given PLongStrings)
+	PPlaceholders                             float64 // contextTargets made of placeholders for the user target lists, in another order than the lists
 	PPseudoKind                               float64 // weighted segment rules by the pseudo-kind "multi" against multi-kind contexts
 	PTopBucket                                float64 // a context whose bucket is exactly 1.0 (weights adding up to 100000, a 100 % segment rule)
 	PNestedSeg                                float64 // a weighted segment rule that first looks into another segment, split point next to the context's bucket
@@ -92,6 +95,7 @@ var datePool = []string{"2020-01-01T00:00:07.1234Z", "2020-01-01T00:00:07.1238Z"
 	"2020-01-01T24:00:00Z", "2020-01-01T00:00:60Z", "not a date", "1970-01-01T00:00:00Z", "2262-04-12T00:00:00Z",
 	"0000-01-01T00:00:00Z", "2020-01-01T00:00:00+99:00", "2020-01-01T0:00:00Z", "2021-06-\x0009T18:53:52Z", "\x00", "2020-01-01T00:00:00Z\x00", "2020-01-01T00:00:00-03:30", "2020-01-01T00:00:00-00:45",
 	"2020-01-01T00:00:00Zjunk", "2020-01-01T00:00:00+01:00\x00junk", "2020-02-31T00:00:00Z", "2020-01-01T00:00:00.5Zx", "2019-02-29T00:00:00Z", "2020-02-29T00:00:00Z", "2020-04-31T12:00:00+01:00",
+	"2000-02-29T12:00:00Z", "2000-02-29T23:59:59.999+00:00", "1900-02-29T00:00:00Z", "2400-02-29T00:00:00Z",
 	"1990-12-31T23:59:60Z", "1990-12-31T15:59:60-08:00", "2016-12-31T23:59:60.5+00:00", "2020-01-01T00:00:00.0000000001Z"}
 var semverPool = []string{"1.0.0", "1.0", "1", "1.0.0-rc.1", "1.0.0-rc.2", "1.0.0-rc.10", "1.0.0+build", "2.0.0", "01.0.0",
 	"1.0.0-rc.1.x", "1.0.0-alpha", "1.0.0-1", "0.9.9", "1.0.1", "1.1", "x", "1.0.0-", "1.0.0-rc..1", "1.0.0-0rc", "1.0.0-00",
@@ -111,6 +115,9 @@ type World struct {
 func (w *World) str() string {
 	if w.r.P(w.p.PLongStrings) {
 		n := w.r.Range(90, 420)
+		if w.r.P(0.5) { // around the 100-byte hash buffer, its doublings, and the sizes at which one append outgrows twice the capacity
+			n = []int{99, 100, 101, 150, 186, 192, 199, 200, 201, 299, 300, 301, 399, 400, 401}[w.r.Intn(15)] + w.r.Range(-3, 3)
+		}
 		b := make([]byte, n)
 		for i := range b {
 			b[i] = byte('a' + w.r.Intn(26))
@@ -233,6 +240,14 @@ func (w *World) genSingle(kind string) SingleSpec {
 	sp := SingleSpec{Kind: kind, Key: ctxKey(w.r)}
 	if w.r.P(w.p.PLongStrings) {
 		sp.Key = w.str() + "k"
+		if w.p.PLongKeys > 0 && w.r.P(w.p.PLongKeys) { // certainly long: the bucketing value alone outgrows the 100-byte buffer
+			n := []int{101, 120, 150, 185, 186, 190, 199, 200, 201, 260}[w.r.Intn(10)]
+			b := make([]byte, n)
+			for i := range b {
+				b[i] = byte('a' + w.r.Intn(26))
+			}
+			sp.Key = string(b)
+		}
 	}
 	if w.r.P(0.4) {
 		n := w.r.Pick([]string{"Alice", "bob", "x"})
@@ -592,10 +607,17 @@ func (w *World) genClause(segOK bool) *J {
 	return c
 }
 
-func (w *World) bucketOf(isExp bool, seed *int64, kind, key, bucketBy, salt string) (float32, bool) {
+func (w *World) bucketOf(isExp bool, seed *int64, kind, key, bucketBy, salt string) (bv float32, bok bool) {
 	if !haveHooks || w.real.Err() != nil {
 		return 0, false
 	}
+	// the generator only uses the bucket to place split points; if the routine panics here, the same inputs reach it again
+	// through Evaluate, where the panic is caught and reported with the case
+	defer func() {
+		if recover() != nil {
+			bv, bok = 0, false
+		}
+	}()
 	var sd ldvalue.OptionalInt
 	if seed != nil {
 		sd = ldvalue.NewOptionalInt(int(*seed))
@@ -849,6 +871,28 @@ func (w *World) genFlag(key string, prereqPool []string) *J {
 		nct = r.Range(1, 4)
 	}
 	f.Set("contextTargets", w.genTargets(nct, true, nvars))
+	if p.PPlaceholders > 0 && nt >= 2 && r.P(p.PPlaceholders) {
+		// every user target list stands behind a placeholder (a user-kind entry without keys, same variation) in contextTargets;
+		// the placeholders are listed in another order than the lists, with entries of other kinds between them
+		tl := f.Get("targets").A
+		ct := JArr()
+		for _, i := range r.Perm(len(tl)) {
+			if r.P(0.3) {
+				ct.A = append(ct.A, w.genTargets(1, true, nvars).A...)
+			}
+			ph := JObj(KV{"values", JArr()}, KV{"variation", tl[i].Get("variation").Clone()})
+			if r.P(0.7) {
+				ph.Set("contextKind", JStr("user"))
+			}
+			ct.A = append(ct.A, ph)
+		}
+		if r.P(0.5) { // and the reverse of the listed order in any case
+			for i, j := 0, len(ct.A)-1; i < j; i, j = i+1, j-1 {
+				ct.A[i], ct.A[j] = ct.A[j], ct.A[i]
+			}
+		}
+		f.Replace("contextTargets", ct)
+	}
 	rules := &J{K: 'a', A: []*J{}}
 	for i := 0; i < r.Intn(p.MaxRules+1); i++ {
 		ru := JObj()
@@ -1409,6 +1453,56 @@ func (w *World) genTopBucket(c *EvalCase) {
 	c.Top = Item{Key: e[0], Form: form, Doc: flag}
 }
 
+// genLongHash: flag key, salt and bucketing value sized so that the hash input outgrows its 100 preallocated bytes in every
+// way the growth of the buffer distinguishes (which append crosses the capacity, by how much, more than once).
+func (w *World) genLongHash(c *EvalCase) {
+	r := w.r
+	lens := []int{1, 8, 40, 60, 95, 99, 100, 101, 120, 150, 186, 190, 199, 200, 201, 260, 410}
+	mk := func(n int) string {
+		b := make([]byte, n)
+		for i := range b {
+			b[i] = byte('a' + r.Intn(26))
+		}
+		return string(b)
+	}
+	key, salt := mk(lens[r.Intn(6)]), mk(lens[r.Intn(8)])
+	if r.P(0.5) {
+		key, salt = r.Pick([]string{"f0", "flagkey"}), r.Pick([]string{"salt", "s", ""})
+	}
+	sp := &w.ctx.Singles[r.Intn(len(w.ctx.Singles))]
+	sp.Key = mk(lens[5+r.Intn(len(lens)-5)] + r.Range(-1, 1))
+	rk := ""
+	if sp.Kind != "user" || r.P(0.4) {
+		rk = sp.Kind
+	}
+	ro := JObj(KV{"variations", JArr(JObj(KV{"variation", JInt(0)}, KV{"weight", JInt(50000)}), JObj(KV{"variation", JInt(1)}, KV{"weight", JInt(50000)}))})
+	if rk != "" {
+		ro.Set("contextKind", JStr(rk))
+	}
+	if r.P(0.25) {
+		ro.Set("kind", JStr("experiment"))
+	}
+	if r.P(0.2) {
+		ro.Set("seed", JInt(int64(r.Intn(1000000))))
+	}
+	form := []int{1, 1, 0, 4, 3, 2}[r.Intn(6)]
+	flag := JObj(KV{"key", JStr(key)}, KV{"on", JBool(true)}, KV{"prerequisites", JArr()}, KV{"targets", JArr()}, KV{"contextTargets", JArr()},
+		KV{"rules", JArr()}, KV{"fallthrough", JObj(KV{"rollout", ro})}, KV{"offVariation", JInt(0)},
+		KV{"variations", JArr(JStr("v0"), JStr("v1"))}, KV{"salt", JStr(salt)}, KV{"version", JInt(1)})
+	if r.P(0.35) { // the same through a weighted segment rule (segment key and salt of their own lengths)
+		sk, ss := mk(lens[r.Intn(8)]), mk(lens[r.Intn(8)])
+		rule := JObj(KV{"id", JStr("w")}, KV{"clauses", JArr()}, KV{"weight", JInt(50000)})
+		if rk != "" {
+			rule.Set("rolloutContextKind", JStr(rk))
+		}
+		seg := JObj(KV{"key", JStr(sk)}, KV{"included", JArr()}, KV{"excluded", JArr()}, KV{"salt", JStr(ss)}, KV{"version", JInt(1)}, KV{"rules", JArr(rule)})
+		flag.Replace("rules", JArr(JObj(KV{"id", JStr("r")}, KV{"variation", JInt(1)}, KV{"clauses", JArr(JObj(KV{"attribute", JStr("")}, KV{"op", JStr("segmentMatch")},
+			KV{"values", JArr(JStr(sk))}, KV{"negate", JBool(false)}))}, KV{"trackEvents", JBool(false)})))
+		c.Segs = []Item{{Key: sk, Form: form, Doc: seg}}
+	}
+	c.Top = Item{Key: key, Form: form, Doc: flag}
+}
+
 // GenEval produces one evaluation case.
 func GenEval(r *Rng, p *Profile) *EvalCase {
 	w := &World{r: r, p: p}
@@ -1424,6 +1518,10 @@ func GenEval(r *Rng, p *Profile) *EvalCase {
 	}
 	if r.P(p.PNestedSeg) && w.ctx.Invalid == 0 {
 		w.genNestedWeighted(c)
+		return c
+	}
+	if p.PLongHash > 0 && r.P(p.PLongHash) && w.ctx.Invalid == 0 {
+		w.genLongHash(c)
 		return c
 	}
 	if p.PTopBucket > 0 && r.P(p.PTopBucket) && w.ctx.Invalid == 0 {
